@@ -203,7 +203,7 @@ class SiteLanguage:
         self.crashes: List[str] = []
 
 
-def site_language(model: Model, regex_names: List[str], patterns: Dict[str, str], run_site: Callable[[Interp, SymStr], Any], exclude_prefix_of: List[str] = (), extra_rx: List[Rx] = ()) -> SiteLanguage:
+def site_language(model: Model, regex_names: List[str], patterns: Dict[str, str], run_site: Callable[[Interp, SymStr], Any], exclude_prefix_of: List[str] = (), extra_rx: List[Rx] = (), include_magnitude: bool = False) -> SiteLanguage:
     """Language of lexemes accepted at one consumption site."""
     out = SiteLanguage()
     holder: Dict[str, Any] = {}
@@ -264,7 +264,7 @@ def site_language(model: Model, regex_names: List[str], patterns: Dict[str, str]
                 elif key[0] in ("int-of-float",):
                     continue  # magnitude, not lexical shape
             magnitude = any(isinstance(k, tuple) and k[0] == "int-of-float" and val != "ok" for k, val in run.ctx.world.items())
-            per_path.append((accepted, lits, (run, crash if not magnitude else None)))
+            per_path.append((accepted, lits, (run, crash if (include_magnitude or not magnitude) else None)))
     except AtomError as err:
         out.undecided = f"predicate outside the modelled idioms: {err}"
         return out
